@@ -324,7 +324,7 @@ func (r *rd) tok() string {
 	r.i++
 	return r.t[r.i-1]
 }
-func (r *rd) int() int64 { v, err := strconv.ParseInt(r.tok(), 10, 64); must(err); return v }
+func (r *rd) int() int64  { v, err := strconv.ParseInt(r.tok(), 10, 64); must(err); return v }
 func (r *rd) hex() string { return dec(r.tok()) }
 func (r *rd) optHex() *string {
 	t := r.tok()
@@ -596,7 +596,10 @@ type mapperHist struct {
 	cfgs []*rawCfg
 }
 
-func (h *mapperHist) load(c *rawCfg) { h.cfgs = append(h.cfgs, c); h.subs = append(h.subs, "load "+c.encode()) }
+func (h *mapperHist) load(c *rawCfg) {
+	h.cfgs = append(h.cfgs, c)
+	h.subs = append(h.subs, "load "+c.encode())
+}
 func (h *mapperHist) get(ty int, name string) {
 	h.subs = append(h.subs, "get "+strconv.Itoa(ty)+" "+enc(name)+" @RX@"+enc(name))
 }
